@@ -24,8 +24,14 @@ import Proofs.MagVal
 namespace Measured.Obligations
 open Measured Generated St
 
+/-- every registered symbol is exactly one SYMBOL token of the shipped grammar -/
+def symbolMatcher : Matcher :=
+  match shipped.grammar.patterns.find? (fun k => k.1 == "SYMBOL") with
+  | some k => matcherOf k.2.1 k.2.2
+  | none => noMatch
+
 theorem symbols_lex :
-    init.unitBySym.all (fun e => matchSymbol e.1.toList == some e.1.toList.length) = true := by
+    init.unitBySym.all (fun e => symbolMatcher e.1.toList == some e.1.toList.length) = true := by
   decide +kernel
 
 /-- decidable `BaseFactors` -/
@@ -88,7 +94,7 @@ def roundTripCase (c : Nat × Int × UId × Int) : Bool :=
     match unitStrPure s2 b with
     | .error _ => true                       -- unpushable prefix: catalogued class, nothing to parse
     | .ok text =>
-      let lc := mkLexConf shipped.grammar.lexOrder shipped.grammar.ignore
+      let lc := shipped.grammar.lexConf
       match parseWith shipped.grammar.table shipped.grammar.rules shipped.grammar.startUnit shipped.grammar.endUnit
               lc (transformerAct (α := Rat)) Val.tok s2 text with
       | (_, .ok (.unit u)) => u == b
